@@ -386,8 +386,10 @@ def rule_dep_order(P, which=("earley", "agenda", "solvers")):
             iter_first = first if not rev else ("succ" if first == "pred" else "pred")
             reads = set()
             for n in walk_live(loop):
-                if isinstance(n, ast.Subscript) and _self_attr(n.value) and n.value.attr in ("incoming", "outgoing"):
-                    reads.add(n.value.attr)
+                if isinstance(n, ast.Subscript):
+                    base = W.canon_ast(f.node, n.value, n)  # through local aliases (`incoming = self.incoming`)
+                    if _self_attr(base) and base.attr in ("incoming", "outgoing"):
+                        reads.add(base.attr)
             if len(reads) != 1:
                 raise AnalysisError(f"{f.qual}: neighbour side read in the block loop not recognised: {reads}")
             rd = reads.pop()
